@@ -363,6 +363,68 @@ def main():
                 ok = arg is not None and attr_chain(arg) == ['self', '_policer']
                 ob("sync:W_%s_hands_the_policer_to_%s" % (meth, itname), "sync_client/client.py :: SnmpSession.%s" % meth, ok,
                    "sync_client/client.py:%d" % c.lineno, "%s(...) at line %d is not given self._policer as its policer" % (itname, c.lineno))
+        # ---- D: deferred user (C13): refresh() discovers the engine id, THEN installs the deferred user's keys, THEN forgets it ----
+        for f, kind in (('sync_client/client.py', 'sync'), ('async_client/client.py', 'async')):
+            m = find(trees[f], 'SnmpSession', 'refresh')
+            if m is None:
+                raise Unsupported("%s SnmpSession.refresh is gone" % f)
+            events = []    # (kind, lineno, node) in source order of the straight-line / if-nested body
+            aliases = {'self._deferred_user'}
+
+            def is_alias(e):
+                c = attr_chain(e)
+                return bool(c) and '.'.join(c) in aliases
+
+            def scan(stmts):
+                for st in stmts:
+                    if isinstance(st, ast.If):
+                        scan(st.body)
+                        scan(st.orelse)
+                        continue
+                    if isinstance(st, (ast.Return, ast.Pass)) or (isinstance(st, ast.Expr) and isinstance(st.value, ast.Constant)):
+                        continue
+                    if isinstance(st, ast.Assign):
+                        # aliasing: x = self._deferred_user ; tuple form x, self._deferred_user = self._deferred_user, None
+                        tg, vals = st.targets[0], st.value
+                        pairs = list(zip(tg.elts, vals.elts)) if isinstance(tg, ast.Tuple) and isinstance(vals, ast.Tuple) and len(tg.elts) == len(vals.elts) else [(tg, vals)]
+                        for t, v in pairs:
+                            if isinstance(t, ast.Name) and is_alias(v):
+                                aliases.add(t.id)
+                        for t, v in pairs:
+                            if attr_chain(t) == ['self', '_deferred_user']:
+                                events.append(('forget', st.lineno, v))
+                    for n in ast.walk(st):
+                        if isinstance(n, ast.Call):
+                            c = attr_chain(n.func)
+                            if c and len(c) >= 3 and c[-2] == '_sock' and c[-1] == 'refresh':
+                                events.append(('roundtrip', n.lineno, n))
+                            if c and c[-1] in ('_send', '_recv') and n.args:
+                                a = attr_chain(n.args[0])
+                                if a and a[-1] in ('send_refresh', 'recv_refresh'):
+                                    events.append(('roundtrip' if a[-1] == 'recv_refresh' else 'probe', n.lineno, n))
+                            if c and len(c) >= 3 and c[-2] == '_sock' and c[-1] == 'set_keys':
+                                events.append(('set_keys', n.lineno, n))
+            scan(m.body)
+            events.sort(key=lambda e: e[1])
+            sk = [e for e in events if e[0] == 'set_keys']
+            fn = "%s :: SnmpSession.refresh" % f
+            if len(sk) != 1:
+                raise Unsupported("%s: refresh() calls set_keys %d times" % (f, len(sk)))
+            call = sk[0][2]
+            want = ['name', 'get_auth_alg', 'get_auth_key', 'get_priv_alg', 'get_priv_key']
+            okargs = len(call.args) == 5 and not call.keywords
+            for a, w in zip(call.args, want):
+                t = a.func if isinstance(a, ast.Call) else a
+                okargs = okargs and isinstance(t, ast.Attribute) and t.attr == w and is_alias(t.value)
+            ob("%s:D_refresh_installs_the_deferred_users_keys" % kind, fn, okargs, "%s:%d" % (f, call.lineno),
+               "set_keys is not given name / auth alg / auth key / priv alg / priv key of the deferred user")
+            ob("%s:D_refresh_discovers_the_engine_id_before_installing_keys" % kind, fn,
+               any(e[0] == 'roundtrip' and e[1] < sk[0][1] for e in events), "%s:%d" % (f, call.lineno),
+               "no discovery round trip before set_keys")
+            forgets = [e for e in events if e[0] == 'forget']
+            ob("%s:D_refresh_forgets_the_deferred_user_only_after_its_keys_are_installed" % kind, fn,
+               len(forgets) >= 1 and all(e[1] > sk[0][1] for e in forgets), "%s:%d" % (f, (forgets[0][1] if forgets else m.lineno)),
+               "self._deferred_user is cleared before set_keys has run (a failed discovery loses the user), or never")
         # ---- B: frame of the bulk buffer (C05 / C06): the iterator yields what the socket returned, nothing is added to it ----------
         for f, itname, meth in (('sync_client/getbulk.py', 'GetBulkIter', '__next__'), ('async_client/client.py', 'GetBulkIter', '__anext__')):
             m = find(trees[f], itname, meth)
